@@ -120,8 +120,11 @@ class _PanelSpy(SkBase):
         ids = _instance_ids(X)
         _record(self.tag, "fit", ids=list(ids), cols=[str(c) for c in X.columns],
                 y=[str(v) for v in np.asarray(y)])
+        # state that survives a second fit of the same object (as a warm-started estimator
+        # has): predictions then differ from those of a clone fitted once on this fold
+        self.n_fits_ = getattr(self, "n_fits_", 0) + 1
         self.train_print_ = _h(sorted(zip(ids, [str(v) for v in np.asarray(y)])),
-                               [str(c) for c in X.columns])
+                               [str(c) for c in X.columns], self.n_fits_)
         self.classes_ = np.unique(np.asarray(y))
         return self
 
